@@ -133,6 +133,7 @@ def run(ctx):
     rule_trivial(ctx, mod, model)
     rule_recognition(ctx, mod, sh, mean, model)
     rule_names_accepted(ctx, mod)
+    rule_seven_notes(ctx, mod)
     ctx.floor("R-C07-1", 40)
     ctx.floor("R-C07-2", 6)
     ctx.floor("R-C07-3", 10)
@@ -453,3 +454,39 @@ def rule_names_accepted(ctx, mod):
             elif bad:
                 ok, why = False, "determine(%s, True) returns the name %r, which from_shorthand does not accept (%s %r)" % (chord, bad[0][0], bad[0][1], bad[0][2])
         ctx.check(ok, R, "names-accepted[%s]" % text, fd.where(), "every name of determine(from_shorthand(%r), True) through from_shorthand" % text, why)
+
+
+def rule_seven_notes(ctx, mod):
+    """Seven-note stacks of thirds (the full thirteenth chords): both forms answer, with equally many names, and neither
+    raises -- in every rotation (real code, concrete notes)."""
+    R = "R-C07-R"
+    fd = mod.func("determine")
+    stacks = {"C13": ["C", "E", "G", "Bb", "D", "F", "A"], "Am13": ["A", "C", "E", "G", "B", "D", "F#"], "FM13": ["F", "A", "C", "E", "G", "Bb", "D"],
+              "A13": ["A", "C#", "E", "G", "B", "D", "F#"], "EbM13": ["Eb", "G", "Bb", "D", "F", "Ab", "C"]}
+    for label, notes7 in stacks.items():
+        def go(it, notes7=notes7):
+            out = []
+            for r in range(7):
+                rot = notes7[r:] + notes7[:r]
+                res = []
+                for form in (True, False):
+                    try:
+                        res.append(("return", it.call_function(fd, [list(rot), form], {})))
+                    except RaiseEx as e:
+                        res.append(("raise", e.exc))
+                out.append((r, res))
+            return out
+        try:
+            ps = explore(lambda ch: Interp(ctx.repo, ch, max_depth=80), go)
+        except CannotDecide as e:
+            raise AnalysisError("determine(<%s, seven notes>): %s" % (label, e))
+        ok, why = len(ps) == 1 and ps[0].kind == "return", "outcome %s" % [(p.kind, short(repr(p.value), 80)) for p in ps]
+        if ok:
+            for r, (sf, lf) in ps[0].value:
+                if sf[0] != "return" or lf[0] != "return":
+                    ok, why = False, "rotation %d: shorthand form %s, long form %s" % (r, sf if sf[0] != "return" else "answers", lf if lf[0] != "return" else "answers")
+                    break
+                if not isinstance(sf[1], list) or not isinstance(lf[1], list) or len(sf[1]) != len(lf[1]):
+                    ok, why = False, "rotation %d: the shorthand form has %s names, the long form %s" % (r, sf[1], lf[1])
+                    break
+        ctx.check(ok, R, "seven-notes[%s]" % label, fd.where(), "determine(<the seven notes of %s>, both forms), every rotation" % label, why)
